@@ -111,6 +111,8 @@ class Recorder:
         self.alias = {}           # (label, line) -> LINE events of *unregistered* code the callback cannot tell apart
         self.counts = {}
         self.inflight = {}
+        self.slot = {}            # bytecode -> (label, line) of its pending line (one slot per bytecode, as in the callback)
+        self.dropped = {}         # (label, line) -> pending lines thrown away by a disable() while they were executing
         self.midflight_disable = False
         self.nevents = 0
         self.kinds = set()
@@ -212,11 +214,13 @@ class Recorder:
                     if event == 'line':
                         self.counts[(lab, line)] = self.counts.get((lab, line), 0) + 1
                         self.inflight[fr] = (lab, line)
+                        self.slot[(base, pad)] = (lab, line)        # the line whose hit is still pending for this bytecode
                         if any(v[2] == (base, pad) for v in self.open.values()):
                             self.reentrant.add(lab)
                         self.open[fr] = (lab, line, (base, pad), self.clock)
                     else:
                         self.inflight.pop(fr, None)
+                        self.slot.pop((base, pad), None)
                 elif event == 'line':
                     owner = self.regkeys.get(((base, pad), line))
                     if owner is not None:
@@ -248,6 +252,10 @@ class Recorder:
                 if self.inflight:
                     self.midflight_disable = True
                     self.inflight.clear()
+                # disable() drops the pending line of every bytecode: those line events never become hits
+                for (lab, line) in self.slot.values():
+                    self.dropped[(lab, line)] = self.dropped.get((lab, line), 0) + 1
+                self.slot.clear()
                 self.open.clear()
                 self.enabled_span += self.clock - self.enabled_at
         self.ops.append('disbc 0')
@@ -385,7 +393,7 @@ def run_case(case, delta):
     hashes = [h for hs in p.code_hash_map.values() for h in hs]
     collision = len(hashes) != len(set(hashes))
     return {'ops': rec.ops, 'resA': resA, 'resB': resB, 'real_snaps': snaps, 'real_blks': blks,
-            'oracle': oracle, 'alias': alias,
+            'oracle': oracle, 'alias': alias, 'dropped': {'%d:%d' % k: v for k, v in sorted(rec.dropped.items())},
             'incl': {'%d:%d' % k: v for k, v in sorted(rec.incl.items())}, 'reentrant': sorted(rec.reentrant),
             'enabled_span': rec.enabled_span, 'clock_end_B': CLIB.verif_clock_get(), 'midflight_disable': rec.midflight_disable, 'nevents': rec.nevents,
             'collision': collision, 'labels': {str(v): list(k) for k, v in labels.d.items()}}
